@@ -201,6 +201,25 @@ PROPS["C14"] = {
                                 "Broadcast after Close is API misuse and can release the shared frames twice (witness broadcaster_misuse_double_release)"],
 }
 
+# ---- T3: equivalence of the model with the translation regenerated from the source by tools/gotrans ---------
+TRANS_TRUSTED = "tie T3 = tools/gotrans: the listed Go functions / statement segments are translated to Lean on every run (Gws/Generated/Trans.lean) and the model functions are proved equal to the translation (TransEquiv.*); trusted: the translator and Gws/Trans/Prelude.lean (Go integer, slice, copy, encoding/binary semantics; slices as values, no aliasing)"
+_TF = ["TransEquiv.GetFIN_eq", "TransEquiv.GetRSV1_eq", "TransEquiv.GetRSV2_eq", "TransEquiv.GetRSV3_eq", "TransEquiv.GetOpcode_eq", "TransEquiv.GetMask_eq",
+       "TransEquiv.GetLengthCode_eq", "TransEquiv.isDataFrame_eq"]
+_TR = ["TransEquiv.readMessage_header_eq", "TransEquiv.readControl_guards_eq"]
+_TRANS = {
+    "C03": (["Gws.Props.TransFrame", "Gws.Props.TransReader"], _TF + _TR),
+    "C04": (["Gws.Props.TransFrame", "Gws.Props.TransReader", "Gws.Props.TransWindow"], _TF + _TR + ["TransEquiv.binaryCeil_eq", "TransEquiv.Max_eq"]),
+    "C13": (["Gws.Props.TransFrame", "Gws.Props.TransReader"], _TF + _TR),
+    "C05": (["Gws.Props.TransFrame"], ["TransEquiv.SetLength_eq", "TransEquiv.GenerateHeader_eq"]),
+    "C06": (["Gws.Props.TransClose"], ["TransEquiv.emitClose_classify_eq"]),
+    "C17": (["Gws.Props.TransWindow"], ["TransEquiv.slideWindow_Write_eq", "TransEquiv.BinaryPow_eq"]),
+    "C02": (["Gws.Props.TransWindow"], ["TransEquiv.slideWindow_Write_eq", "TransEquiv.BinaryPow_eq"]),
+}
+for _p, (_mods, _ths) in _TRANS.items():
+    PROPS[_p]["trans_modules"] = _mods
+    PROPS[_p]["theorems"] = PROPS[_p]["theorems"] + _ths
+    PROPS[_p]["trusted"] = PROPS[_p]["trusted"] + [TRANS_TRUSTED]
+
 # ---- relevance: does an implementation/model difference contradict THIS property's clauses? ---------------
 import re as _re
 
